@@ -86,6 +86,29 @@ def _case(draw):
                 others[0]["anchors"] = [a for a in others[0]["anchors"] if a["name"] != "_top"] + [{"name": "_top", "x": 3, "y": 400}]
                 others[1]["anchors"] = [a for a in others[1]["anchors"] if a["name"] != "top"] + [{"name": "top", "x": 120, "y": 650}]
                 others[1]["width"] = others[1]["width"] or 480
+    if which == "propagate" and interp and any(g["name"] == "n2" for g in spec["glyphs"]) and draw(st.booleans()):
+        # anchor-less composites inside composites: the inner ones receive their anchors while the outermost one is processed
+        for g in spec["glyphs"]:
+            if g["name"] in ("n1", "n2"):
+                g["anchors"] = []
+        if not any(a["name"] in ("top", "bottom") for a in spec["glyphs"][0]["anchors"]):
+            spec["glyphs"][0]["anchors"] = spec["glyphs"][0]["anchors"] + [{"name": "top", "x": 40, "y": 600}]
+    inst = None
+    if interp and which in ("decompose", "decomposeT", "skip") and not any(g["name"] == "n2" for g in spec["glyphs"]) and names and draw(st.booleans()):
+        spec["glyphs"].append({"name": "n1", "width": 400, "height": 0, "unicodes": [], "anchors": [], "components": [{"base": names[0], "t": [1, 0, 0, 1, 20, 0]}]})
+        spec["glyphs"].append({"name": "n2", "width": 400, "height": 0, "unicodes": [], "anchors": [], "components": [{"base": "n1", "t": [1, 0, 0, 1, 0, 30]}]})
+        names += ["n1", "n2"]
+    if interp and draw(st.sampled_from([True, True, False])):
+        # the filter also runs with an Instantiator over two families that differ in what their sparse middle master holds
+        pool = [n for n in names if n not in fopts.get("skipExportGlyphs", [])] or names
+        inst0 = {"sub1": sorted(draw(st.lists(st.sampled_from(pool), unique=True, min_size=1, max_size=2))), "sub2": sorted(draw(st.lists(st.sampled_from(pool), unique=True, min_size=1, max_size=2)))}
+        inst = inst0
+        if any(g["name"] == "n2" for g in spec["glyphs"]) and len(pool) >= 2 and draw(st.sampled_from([True, True, False])):
+            # the innermost base of the nested composites is redefined by one family's sparse master only
+            b0 = spec["glyphs"][0]["name"]
+            other = [n for n in pool if n != b0 and not n.startswith("n")] or [n for n in pool if n != b0]
+            pair = [sorted(set(inst["sub1"]) | {b0}), [other[0]]]
+            inst = dict(zip(("sub1", "sub2"), pair if draw(st.sampled_from([True, True, True, False])) else pair[::-1]))
     incmode = draw(st.sampled_from(["all", "include", "include", "exclude"])) if which not in ("skip", "dotted") else "all"
     incnames = draw(st.lists(st.sampled_from(names), unique=True, min_size=0 if incmode == "include" else 1, max_size=3)) if incmode != "all" else []
     return {
@@ -99,6 +122,7 @@ def _case(draw):
         "incnames": incnames,
         "inplace": draw(st.sampled_from([False, False, True])),
         "sparse_last": draw(st.booleans()),
+        "inst": inst,
         "glyphset": draw(st.sampled_from(["_GlyphSet", "_GlyphSet", "dict"])),   # the filter API takes any mapping of glyph names to glyphs
     }
 
@@ -328,6 +352,40 @@ def run_case(case, ctx):
             raise Violation("a reused interpolatable filter object gives a different result than a fresh one", filter=case["filter"])
         ctx.count("invocations", 3)
         ctx.label("interpolatable")
+        if case.get("inst"):
+            from ufo2ft.instantiator import Instantiator
+
+            specM = F.perturb(case["spec"], 2, case["second"]["amp"], False)
+
+            def family_run(f, subset):
+                fonts_ = [S.build(specA, module), S.build(dict(specM, glyphs=copy.deepcopy([g for g in specM["glyphs"] if g["name"] in subset])), module), S.build(specB, module)]
+                gss = [glyphset_of(f_, False) for f_ in fonts_]
+                bef = [index(g) for g in gss]
+                instantiator = Instantiator({"Weight": (0, 0, 1000)}, [({"Weight": w}, g) for w, g in zip((0, 500, 1000), gss)])
+                try:
+                    m = set(f(fonts_, gss, instantiator))
+                except Exception as e:  # compared, not judged: the reused and the fresh object have to fail alike
+                    return bef, "exc:" + type(e).__name__, set()
+                return bef, [index(g) for g in gss], m
+
+            _, r1, m1 = family_run(flt, case["inst"]["sub1"])
+            _, r2, m2 = family_run(flt, case["inst"]["sub2"])
+            fresh2, _, _ = make_filter(case)
+            bef3, r3, m3 = family_run(fresh2, case["inst"]["sub2"])
+            if r2 != r3 or m2 != m3:
+                raise Violation("an interpolatable filter object reused on a second family (with an Instantiator) gives a different result than a fresh one", filter=case["filter"],
+                                sparse_first=case["inst"]["sub1"], sparse_second=case["inst"]["sub2"], returned_reused=sorted(m2), returned_fresh=sorted(m3),
+                                glyphs_per_master_reused=[sorted(x) for x in r2] if isinstance(r2, list) else r2, glyphs_per_master_fresh=[sorted(x) for x in r3] if isinstance(r3, list) else r3)
+            if isinstance(r3, list):
+                unreported = sorted({n for b_, a_ in zip(bef3, r3) for n in set(b_) | set(a_) if b_.get(n) != a_.get(n)} - m3)
+                if unreported:
+                    raise Violation("changed / added / removed glyphs missing from the returned set (run with an Instantiator)", filter=case["filter"], missing=unreported, returned=sorted(m3))
+                ctx.label("interpolatable-with-instantiator")
+                if any(len(a_) > len(b_) for b_, a_ in zip(bef3, r3)):
+                    ctx.label("glyph-added-to-sparse-master")
+            else:
+                ctx.label("interpolatable-with-instantiator-raised")
+            ctx.count("invocations", 3)
     state1 = filter_state(flt)
     if state0 != state1:
         raise Violation("filter object carries state between invocations (attributes other than 'context' changed)", before=repr(state0)[:300], after=repr(state1)[:300])
